@@ -18,18 +18,24 @@ Lemma is_hook_dd_call e args name span : is_hook (dd_call e args name span) = tr
 Proof. unfold is_hook. rewrite hook_call_dd_call. reflexivity. Qed.
 
 (** ** Counting hook sites *)
-Lemma hook_count_node t cs :
-  hook_count (Node t cs) = (if is_hook (Node t cs) then 1 else 0) + hook_count_list cs.
-Proof.
-  reflexivity.
-Qed.
+Definition atom (n : node) : bool := leaf n || is_ident n.
 
-Lemma hook_count_node_alt n :
+Lemma hook_count_leaf n : atom n = true -> hook_count n = 0.
+Proof. destruct n as [t cs]. unfold atom. cbn [hook_count]. intros ->. reflexivity. Qed.
+
+Lemma hook_count_node t cs : atom (Node t cs) = false ->
+  hook_count (Node t cs) = (if is_hook (Node t cs) then 1 else 0) + hook_count_list cs.
+Proof. unfold atom. intros H. cbn [hook_count]. rewrite H. reflexivity. Qed.
+
+Lemma hook_count_node_alt n : atom n = false ->
   hook_count n = (if is_hook n then 1 else 0) + hook_count_list (children n).
 Proof. destruct n as [t cs]. apply hook_count_node. Qed.
 
 Lemma hook_count_list_app a b : hook_count_list (a ++ b) = hook_count_list a + hook_count_list b.
 Proof. unfold hook_count_list. induction a as [|x r IH]; simpl; [reflexivity | rewrite IH; lia]. Qed.
+
+Lemma hook_count_list_cons x l : hook_count_list (x :: l) = hook_count x + hook_count_list l.
+Proof. reflexivity. Qed.
 
 Lemma hook_count_leaf_ident s sym : hook_count (mk_ident s sym) = 0.
 Proof. reflexivity. Qed.
@@ -38,16 +44,16 @@ Lemma hook_count_dd_callee name span : hook_count (dd_callee name span) = 0.
 Proof. reflexivity. Qed.
 
 Lemma hook_count_mk_arg e : hook_count (mk_arg e) = hook_count e.
-Proof. unfold mk_arg, nO, nNul. rewrite hook_count_node. simpl. lia. Qed.
+Proof. unfold mk_arg, nO, nNul. rewrite hook_count_node by reflexivity. simpl. lia. Qed.
 
 Lemma hook_count_dd_call e args name span :
   hook_count (dd_call e args name span) = 1 + hook_count e + hook_count_list args.
 Proof.
-  rewrite hook_count_node_alt. rewrite is_hook_dd_call.
+  rewrite hook_count_node_alt by reflexivity. rewrite is_hook_dd_call.
   unfold dd_call, mk_call, mk, children. cbn [fst snd hook_count_list fold_right].
   rewrite hook_count_dd_callee.
   change (hook_count ctxt0) with 0. change (hook_count nNul) with 0.
-  unfold nL. rewrite (hook_count_node Lst). cbn [is_hook hook_call hook_count_list fold_right].
+  unfold nL. rewrite (hook_count_node Lst) by reflexivity. cbn [is_hook hook_call hook_count_list fold_right].
   rewrite hook_count_mk_arg. fold (hook_count_list args). lia.
 Qed.
 
@@ -59,11 +65,11 @@ Proof.
   unfold dd_paren. destruct (a_assigns a) as [|x xs] eqn:E.
   - rewrite hook_count_dd_call. simpl. lia.
   - unfold mk_paren, mk_seq, mk. cbn [fst snd].
-    rewrite (hook_count_node (K KParen (fst span) (snd span))). cbn [is_hook hook_call].
+    rewrite (hook_count_node (K KParen (fst span) (snd span))) by reflexivity. cbn [is_hook hook_call].
     unfold hook_count_list at 1. cbn [fold_right].
-    rewrite (hook_count_node (K KSeq (fst span) (snd span))). cbn [is_hook hook_call].
+    rewrite (hook_count_node (K KSeq (fst span) (snd span))) by reflexivity. cbn [is_hook hook_call].
     unfold hook_count_list at 1. cbn [fold_right].
-    rewrite (hook_count_node Lst). cbn [is_hook hook_call].
+    rewrite (hook_count_node Lst) by reflexivity. cbn [is_hook hook_call].
     rewrite hook_count_list_app. unfold hook_count_list at 2. cbn [fold_right].
     rewrite hook_count_dd_call. lia.
 Qed.
